@@ -21,6 +21,11 @@ func (m *confirmMap) contains(key []byte, duration time.Duration) bool {
 	val, found := m.cache.Get(key)
 	if found {
 		ts := time.Unix(0, int64(binary.BigEndian.Uint64(val.([]byte))))
+		if simEnabled {
+			if now, ok := simNow(); ok {
+				return ts.Add(duration).After(now)
+			}
+		}
 		return ts.Add(duration).After(time.Now())
 	}
 	return false
